@@ -152,7 +152,7 @@ def main():
         "setup_cmd": "./setup.sh",
         "hooks": {
             "guard": "PDPY11_VERIF",
-            "enable": "environment variable PDPY11_VERIF=1 at import time of pdpy11.compiler (set by ./check); pure Python, nothing to build",
+            "enable": "environment variable PDPY11_VERIF=1 at import time of pdpy11.compiler (set by ./check) makes the hook code available; the harness turns it on (pdpy11.compiler.VERIF_HOOKS) only for the assemblies whose layout trace it records and runs everything else, command-line runs included, with the hook off; pure Python, nothing to build",
             "baseline_off_cmd": "cd /repo && env -u PDPY11_VERIF /venv/bin/python -m pytest -ra -q -p no:cacheprovider --timeout=900 --continue-on-collection-errors",
             "source_commits": ["32dc7db", "b95f956"],
             "add_only": True,
